@@ -65,6 +65,29 @@ FIELD_OF = {"space": "space", "expanded": "expanded", "depth": "depth", "skipped
 CONFIG_KEYS = ["max_motifs_per_node", "nfvs_size_threshold", "pint_goal_size_limit", "attractor_candidates_limit",
                "retained_set_optimization_threshold", "minimum_simulation_budget"]
 
+# configuration records (TypedDict SuccessionDiagramConfiguration, every key present) as an opaque sort with one getter per key
+TConfig = TObj("Config")
+cfg_get = {k: z3.Function("cfg_" + k, TConfig.sort(), I) for k in CONFIG_KEYS}
+cfg_debug = z3.Function("cfg_debug", TConfig.sort(), B)
+DefaultCfg = z3.Const("default_config", TConfig.sort())
+DEFAULTS = {"max_motifs_per_node": 100_000, "nfvs_size_threshold": 2_000, "pint_goal_size_limit": 8_192,
+            "attractor_candidates_limit": 100_000, "retained_set_optimization_threshold": 1_000, "minimum_simulation_budget": 1_000}
+DAG_FIELDS = ("K", "space", "expanded", "skipped", "parent", "cand", "seeds", "sets", "ppn", "pbn", "pnfvs",
+              "edge", "motifs", "motif0", "succsig", "depth")
+
+
+def fresh_dag_value(name):
+    """a networkx DiGraph value carrying NodeData / edge attributes, independent of any diagram (pickled state)"""
+    f = {"K": TInt.fresh(name + ".K")}
+    for key, ty in NODE_FIELDS.items():
+        f[FIELD_OF[key]] = TArr(ty).fresh(f"{name}.{FIELD_OF[key]}")
+    f["edge"] = TArr(TBool, 2).fresh(name + ".edge")
+    f["motifs"] = TArr(LS, 2).fresh(name + ".motifs")
+    f["motif0"] = TArr(TSpace, 2).fresh(name + ".motif0")
+    f["succsig"] = TArr(TSuccSig).fresh(name + ".succsig")
+    return _V("dagval", None, f)
+
+
 addsucc3 = z3.Function("addsucc3", TSuccSig.sort(), T.SpaceS, T.SpaceS, TSuccSig.sort())   # (sig, motif, child space)
 nosucc = z3.Const("nosucc", TSuccSig.sort())
 
@@ -163,6 +186,26 @@ class SDModel(ObjModel):
                 f, ty = m[attr]
                 _setfld(st, v, f, eng.coerce(val, ty, st))
                 return
+            if attr == "config":
+                if val.ty != TConfig:
+                    raise OutOfSubset("self.config = <not a configuration record>")
+                # every contract of the diagram is stated for debug == False (debug printing is not extracted)
+                eng.oblige(st, "config.debug_is_off", z3.Not(cfg_debug(val.t)), 0, kind="pre")
+                for k in CONFIG_KEYS:
+                    _setfld(st, v, "cfg_" + k, vint(cfg_get[k](val.t)))
+                return
+            if attr == "dag":
+                if isinstance(val, _V) and val.kind == "dagval":
+                    for f in DAG_FIELDS:
+                        _setfld(st, v, f, val.a[0][f])
+                    return
+                if val.ty == TPN and z3.eq(val.t, T.EmptyPN):
+                    # a new, empty nx.DiGraph(): no nodes, no edges (node/edge attributes of absent ids are irrelevant)
+                    _setfld(st, v, "K", vint(0))
+                    e = _fld(st, v, "edge")
+                    _setfld(st, v, "edge", Val(e.ty, z3.K(I, z3.K(I, z3.BoolVal(False)))))
+                    return
+                raise OutOfSubset("self.dag = <graph shared with another object>")
         raise OutOfSubset(f"attribute store .{attr}")
 
     # --- subscripts
@@ -436,3 +479,42 @@ def install(reg):
             return Val(TPN, T.PNOfNet(v.t))
         return None
     reg.add_hook("coerce", coerce)
+
+
+# ---------------------------------------------------------------------- configuration records, state records
+class ConfigModel(ObjModel):
+    def getitem(self, eng, st, v, idx, node):
+        key = idx.s if isinstance(idx, E._StrLit) else None
+        if key == "debug":
+            return vbool(cfg_debug(v.t))
+        if key in CONFIG_KEYS:
+            return vint(cfg_get[key](v.t))
+        raise OutOfSubset(f"config key {key}")
+
+
+def default_cfg_facts():
+    return z3.And(z3.Not(cfg_debug(DefaultCfg)), *[cfg_get[k](DefaultCfg) == DEFAULTS[k] for k in CONFIG_KEYS])
+
+
+_install_s3 = install
+
+
+def install(reg):
+    _install_s3(reg)
+    reg.add_model(lambda v: v.ty == TConfig, ConfigModel())
+
+    def default_config(eng, st, node):
+        # SuccessionDiagram.default_config(): the literal record of the class (values re-read from the source by the
+        # contract of default_config, see contracts/succession_diagram.py)
+        c = reg.contracts.get("biobalm.succession_diagram.SuccessionDiagram.default_config")
+        if c is None:
+            raise OutOfSubset("default_config without contract")
+        st.assume(default_cfg_facts())
+        return Val(TConfig, DefaultCfg)
+    reg.module_calls[("SuccessionDiagram", "default_config")] = default_config
+
+    def dict_merge(eng, st, vs, node):
+        if vs and all(v.ty == TConfig for v in vs):
+            return vs[-1]       # total records of the same TypedDict: every key is taken from the last operand
+        return None
+    reg.add_hook("dict_merge", dict_merge)
